@@ -351,6 +351,24 @@ impl Prop for C16 {
 			}
 		}
 		let b = &base.accepted;
+		// "the one a sink that accepts everything would get" is meant to be the file of the values written: a baseline
+		// that is not that (bytes of an EARLIER writer on the same configuration in front of the header, say — data
+		// that was silently dropped there and silently turns up here) would make every comparison below vacuous
+		{
+			let env = crate::ast::Env::build(&spec.schema);
+			let model = container::run_writer(spec, &SimSink::all(), |_, _| true).model;
+			match crate::ref_container::parse(b).and_then(|p| p.decode_values(&env, &spec.schema)) {
+				Ok(vals) if vals == model => {}
+				Ok(vals) => {
+					out.fail(format!("C16:accept-everything-stream-is-not-the-file-written:{}", spec.codec.name()), format!("the reference parser finds {} values in it, {} were written", vals.len(), model.len()));
+					return out;
+				}
+				Err(e) => {
+					out.fail(format!("C16:accept-everything-stream-is-not-the-file-written:{}", spec.codec.name()), e);
+					return out;
+				}
+			}
+		}
 		let header_len = base.steps.first().map_or(0, |s| s.accepted_len);
 		let cfgs = match &scn.cfgs {
 			Cfgs::Enumerate { seed, fault_cap } => enumerate_cfgs(spec, *seed, *fault_cap, b.len()),
